@@ -238,8 +238,19 @@ pub async fn run(args: &Args, rep: &mut Reporter, prop: &'static str) {
                     break;
                 }
             };
-            let folders: Vec<VaultId> = view0.folders.keys().copied().collect();
-            let pool: Vec<(VaultId, SecretId)> = view0.folders.iter().flat_map(|(f, v)| v.secrets.keys().map(move |s| (*f, *s))).collect();
+            // order by names / labels (generated from the seed), not by random uuid,
+            // so that a seed regenerates the same history
+            let mut fsorted: Vec<(&VaultId, &vmodel::snapshot::FolderView)> = view0.folders.iter().collect();
+            fsorted.sort_by(|a, b| (a.1.name.as_str(), a.1.flags).cmp(&(b.1.name.as_str(), b.1.flags)));
+            let folders: Vec<VaultId> = fsorted.iter().map(|(id, _)| **id).collect();
+            let mut pool: Vec<(String, VaultId, SecretId)> = vec![];
+            for (f, v) in &fsorted {
+                for (sid, (m, _)) in &v.secrets {
+                    pool.push((format!("{}|{}", v.name, m.get("label").and_then(|l| l.as_str()).unwrap_or("")), **f, *sid));
+                }
+            }
+            pool.sort();
+            let pool: Vec<(VaultId, SecretId)> = pool.into_iter().map(|(_, f, s)| (f, s)).collect();
             // ---- offline edits, unequal counts ------------------------------------
             let mut edits: Vec<Edit> = vec![];
             let mut counts: Vec<usize> = (0..n).map(|_| rng.below(5) as usize).collect();
